@@ -80,8 +80,8 @@ HIST_CLAUSES = ["RelationResult", "ExactlyOneNotice", "NoStray", "NoStaleRelatio
 
 def rel_histories(tier, rng):
     hs = []
-    def H(tk, term, ops):
-        hs.append({"id": len(hs) + 1, "tk": tk, "term": term, "ops": [{"c": c, "op": o} for c, o in ops]})
+    def H(tk, term, ops, nalias=1, watch=0, dele=-1):
+        hs.append({"id": len(hs) + 1, "tk": tk, "term": term, "ops": [{"c": c, "op": o} for c, o in ops], "nalias": nalias, "watch": watch, "del": dele})
     terms = {"pid": ["kill", "normal"], "name": ["kill", "normal", "unregister"], "alias": ["kill", "unregister"], "event": ["kill", "normal", "unregister"]}
     for tk, ts in terms.items():
         for term in ts:
@@ -91,10 +91,16 @@ def rel_histories(tier, rng):
             H(tk, term, [(1, "link"), (1, "monitor"), (1, "unlink"), (2, "monitor")])
             H(tk, term, [(1, "link"), (1, "monitor"), (1, "demonitor"), (2, "link"), (2, "link")])
             H(tk, term, [(1, "link"), (2, "link"), (2, "monitor"), (3, "link"), (3, "monitor"), (3, "unlink"), (3, "demonitor"), (1, "demonitor")])
+    # the owner holds three aliases, deletes one, and terminates: the watched one (every position) is still owed its notices
+    for watch in (0, 1, 2):
+        for dele in (0, 1, 2):
+            if dele != watch:
+                H("alias", "kill", [(1, "link"), (2, "monitor"), (3, "link"), (3, "monitor")], nalias=3, watch=watch, dele=dele)
     ops = ["link", "monitor", "link", "monitor", "unlink", "demonitor"]
     for _ in range(60 if tier == "quick" else 1500):
         tk = rng.choice(list(terms)); term = rng.choice(terms[tk])
-        H(tk, term, [(rng.randint(1, 3), rng.choice(ops)) for _ in range(rng.randint(1, 9))])
+        na = rng.choice([1, 2, 3]); wa = rng.randrange(na)
+        H(tk, term, [(rng.randint(1, 3), rng.choice(ops)) for _ in range(rng.randint(1, 9))], nalias=na, watch=wa, dele=rng.choice([-1] + [x for x in range(na) if x != wa]))
     return hs
 
 
